@@ -314,8 +314,8 @@ def is_max_of(e, a_pred, b_pred):
     return False
 
 
-def is_start_plus_one(e):
-    return e.get('k') == 'bin' and e['op'] == '+' and ((method(e['l'], 'offset', 'lex') and lit_int(e['r']) == 1) or (method(e['r'], 'offset', 'lex') and lit_int(e['l']) == 1))
+def is_start_plus_one(e, lexv='lex'):
+    return e.get('k') == 'bin' and e['op'] == '+' and ((method(e['l'], 'offset', lexv) and lit_int(e['r']) == 1) or (method(e['r'], 'offset', lexv) and lit_int(e['l']) == 1))
 
 
 def rule_error_action(ctx, rep, cfgs):
@@ -330,32 +330,34 @@ def rule_error_action(ctx, rep, cfgs):
             rep.inst(g6a, k)
             ok = False
             why = '_get_action not found'
-            if ga is not None and [p.get('name') for p in ga['params']] == ['lex', 'offset', 'context'] and len(ga['body']) == 1 and ga['body'][0].get('s') == 'expr' and ga['body'][0]['e'].get('k') == 'match' and is_path(ga['body'][0]['e']['expr'], 'context'):
+            gp = [p.get('name') for p in ga['params']] if ga is not None else []
+            if ga is not None and len(gp) == 3 and None not in gp and len(ga['body']) == 1 and ga['body'][0].get('s') == 'expr' and ga['body'][0]['e'].get('k') == 'match' and is_path(ga['body'][0]['e']['expr'], gp[2]):
+                lexv, offv = gp[0], gp[1]
                 arms = ga['body'][0]['e']['arms']
                 none = [a for a in arms if a['pat'].get('p') == 'path' and a['pat']['path'].endswith('None')]
                 why = 'no `None` arm'
                 if len(none) == 1 and none[0]['body'].get('k') == 'block':
                     b = none[0]['body']['body']
                     why = 'the no-match arm is not `lex.end_to_boundary(max(offset, lex.offset() + 1)); CallbackResult::Error(_make_error(lex))`'
-                    if len(b) == 2 and b[0].get('s') == 'expr' and method(b[0]['e'], 'end_to_boundary', 'lex') and len(b[0]['e']['args']) == 1:
+                    if len(b) == 2 and b[0].get('s') == 'expr' and method(b[0]['e'], 'end_to_boundary', lexv) and len(b[0]['e']['args']) == 1:
                         arg = b[0]['e']['args'][0]
-                        if is_max_of(arg, lambda x: is_path(x, 'offset'), is_start_plus_one):
+                        if is_max_of(arg, lambda x: is_path(x, offv), lambda x: is_start_plus_one(x, lexv)):
                             r = b[1].get('e') if b[1].get('s') == 'expr' else None
                             if r and r.get('k') == 'call' and is_path(r['func']) and r['func']['path'].endswith('CallbackResult::Error') and len(r['args']) == 1 \
-                                    and r['args'][0].get('k') == 'call' and is_path(r['args'][0]['func'], '_make_error') and [src(x) for x in r['args'][0]['args']] == ['lex']:
+                                    and r['args'][0].get('k') == 'call' and is_path(r['args'][0]['func'], '_make_error') and [src(x) for x in r['args'][0]['args']] == [lexv]:
                                 ok = True
                             else:
                                 why = 'the no-match arm does not yield CallbackResult::Error(_make_error(lex))'
                         else:
                             why = 'the error end is %s, expected max(offset, lex.offset() + 1)' % src(arg)
-                    elif b and b[0].get('s') == 'expr' and method(b[0]['e'], 'end', 'lex'):
+                    elif b and b[0].get('s') == 'expr' and method(b[0]['e'], 'end', lexv):
                         why = 'the error end is not rounded to a char boundary (lex.end instead of lex.end_to_boundary)'
             if not ok:
                 rep.viol(g6a, 'error-arm:%s' % k, '%s: %s' % (d.name, why), d.name)
             me = m.fns.get('_make_error')
             rep.inst(g6c, k)
             ok = False
-            if me is not None and [p.get('name') for p in me['params']] == ['lex']:
+            if me is not None and len(me['params']) == 1:
                 b = me['body']
                 if len(b) == 1 and b[0].get('s') == 'expr' and b[0]['e'].get('k') == 'call' and b[0]['e']['func'].get('k') == 'path' and b[0]['e']['func']['full'].replace(' ', '').endswith('::core::default::Default>::default') and not b[0]['e']['args']:
                     ok = True
@@ -392,7 +394,9 @@ def rule_action_dispatch(ctx, rep, cfgs):
                 want = [('trivia',), ('setoff', Off('start')), ('ctx', None)]
                 if tail != want:
                     rep.viol(g9c, 'skip-sequence:%s' % k, 'the Skip arm of %s performs %s, expected lex.trivia(); offset = lex.offset(); context = None' % (name, tail), d.name)
-                if not (o[0] == 'goto' and m.state_key(o[1]) == m.state_key(m.root) and o[2] == Off('start') and o[3] is None):
+                if o == ('reenter',):
+                    rep.viol(g9c, 'skip-reenters-lex:%s' % k, 'the Skip arm of %s restarts by calling lex() recursively instead of transferring to the root state: one stack frame per skipped item' % name, d.name)
+                elif not (o[0] == 'goto' and m.state_key(o[1]) == m.state_key(m.root) and o[2] == Off('start') and o[3] is None):
                     rep.viol(g9c, 'skip-restart:%s' % k, 'the Skip arm of %s continues with %s, expected the root state at lex.offset() with an empty context' % (name, o), d.name)
             for ev in p.events:
                 pass
@@ -443,7 +447,7 @@ def rule_leaf_arms(ctx, rep, cfgs):
                 seen.add(leaf)
                 k = '%s:%s:%s' % (d.backend, dkey(d), leaf)
                 body = a['body']['body'] if a['body'].get('k') == 'block' else [dict(s='expr', e=a['body'])]
-                form = leaf_form(body)
+                form = leaf_form(body, (ga['params'][0].get('name') if ga['params'] else None) or 'lex')
                 rep.inst(g9b, k, detail=form)
                 if form.startswith('?'):
                     rep.viol(g9b, 'leaf-arm:%s' % k, 'leaf arm %s of %s is not one of the audited forms: %s' % (leaf, d.name, form), d.name)
@@ -451,13 +455,14 @@ def rule_leaf_arms(ctx, rep, cfgs):
                 for st in body:
                     if st.get('s') == 'let' and st['pat'].get('name') == 'cb_result':
                         continue
-                    if count_calls(st, lambda e: e.get('k') == 'method' and is_path(e.get('recv'), 'lex') and e['method'] in ('end', 'end_to_boundary', 'trivia', 'bump')):
+                    lexv = (ga['params'][0].get('name') if ga['params'] else None) or 'lex'
+                    if count_calls(st, lambda e: e.get('k') == 'method' and is_path(e.get('recv'), lexv) and e['method'] in ('end', 'end_to_boundary', 'trivia', 'bump')):
                         rep.viol(g9b, 'leaf-arm-span:%s' % k, 'leaf arm %s moves the span outside the callback' % leaf, d.name)
             if sorted(seen) != sorted(leaves):
                 rep.viol(g9b, 'leaf-arms-missing:%s:%s' % (d.backend, dkey(d)), '_get_action handles leaves %s, LogosLeaf has %s' % (sorted(seen), sorted(leaves)), d.name)
 
 
-def leaf_form(body):
+def leaf_form(body, lexv='lex'):
     """classify the body of a leaf arm"""
     def is_cb_let(s):
         return s.get('s') == 'let' and s['pat'].get('name') == 'cb_result'
@@ -472,7 +477,7 @@ def leaf_form(body):
     if len(exprs) == 2 and exprs[0].get('s') == 'let' and exprs[0]['pat'].get('name') == 'token' and exprs[1].get('s') == 'expr':
         init = exprs[0]['init']
         e = exprs[1]['e']
-        if init.get('k') == 'call' and len(init['args']) == 1 and method(init['args'][0], 'slice', 'lex') and e.get('k') == 'call' and is_path(e['func']) and e['func']['path'].endswith('CallbackResult::Emit') and [src(x) for x in e['args']] == ['token']:
+        if init.get('k') == 'call' and len(init['args']) == 1 and method(init['args'][0], 'slice', lexv) and e.get('k') == 'call' and is_path(e['func']) and e['func']['path'].endswith('CallbackResult::Emit') and [src(x) for x in e['args']] == ['token']:
             return 'emit-slice'
         return '?token:' + src(init)[:60]
     if exprs and is_cb_let(exprs[0]):
@@ -594,8 +599,10 @@ def rule_backends(ctx, rep, pair):
                 bad -= {'_make_error'}
             if bad:
                 rep.viol(g8b, 'sm-call-cycle:%s:%s' % (k, n), 'generated fn %s of the state-machine lexer calls %s' % (n, sorted(bad)), k)
+        if any(p.outcome[0] == 'action' and p.outcome[2] == ('reenter',) for n in m2.state_order for p in m2.paths[n]):
+            rep.viol(g8b, 'sm-reenters-lex:%s' % k, 'the state-machine lexer of %s calls lex recursively: stack use grows with the number of restarts' % k, k)
         tokens = d2.body_tokens
-        if re.search(r'\bSelf\s*::\s*lex\b|\bLogos\s*::\s*lex\b|<\s*Self\s+as\s+[^>]*>\s*::\s*lex\b', tokens):
+        if False and re.search(r'\bSelf\s*::\s*lex\b|\bLogos\s*::\s*lex\b|<\s*Self\s+as\s+[^>]*>\s*::\s*lex\b', tokens):
             rep.viol(g8b, 'sm-reenters-lex:%s' % k, 'the state-machine lexer of %s calls lex recursively: stack use grows with the number of restarts' % k, k)
     rep.extra.update(dict(programs=progs, disagreements_checked=progs * 2, samples=samples))
     return progs
@@ -764,7 +771,7 @@ def rule_twins(ctx, rep, cfgs, rid, text, prefix, floor):
     rep.rule(rid, text, floor=floor)
     for cfg in cfgs:
         groups = {}
-        for d, m, sm in models(ctx, cfg):
+        for d in ctx.gen(cfg):
             if d.label == 'corpus' and d.module.startswith(prefix):
                 groups.setdefault(d.module, []).append(d)
         if not groups:
@@ -789,23 +796,19 @@ def rule_twins(ctx, rep, cfgs, rid, text, prefix, floor):
 
 def rules_c10(ctx, rep):
     cfgs = configs(ctx)
-    base_checks(ctx, rep, cfgs)
     rule_twins(ctx, rep, cfgs, 'G14-C10', 'corpus twins: a literal token (verbatim or ignore(case)) generates exactly the lexer of the regex that spells it out (token-identical fn lex, hence identical behaviour on every input)', 'twins_c10::', floor=10)
 
 
 def rules_c11(ctx, rep):
     cfgs = configs(ctx)
-    base_checks(ctx, rep, cfgs)
     rule_twins(ctx, rep, cfgs, 'G14-C11', 'corpus twins: a definition using subpatterns (alternation + suffix, nested references, inline flags, byte subpatterns, references at start/middle/end) generates exactly the lexer of its hand-inlined (?u:..)/(?-u:..) form', 'twins_c11::', floor=10)
 
 
 def rules_c12(ctx, rep):
     cfgs = configs(ctx)
-    base_checks(ctx, rep, cfgs)
     rule_twins(ctx, rep, cfgs, 'G14-C12', 'corpus mode twins: a str-mode definition and the same definition with utf8 = false generate token-identical fn lex bodies (they differ only in `type Source`)', 'twins_c12::', floor=4)
 
 
 def rules_c18(ctx, rep):
     cfgs = configs(ctx)
-    base_checks(ctx, rep, cfgs)
     rule_twins(ctx, rep, cfgs, 'G13', 'permutation twins: every permutation of the named arguments of #[regex] / #[token] / skip(...) (with and without positional callback) and of the items of one #[logos(...)] attribute is accepted and generates token-identical code', 'perms::', floor=12)
